@@ -1,1 +1,3 @@
 import HW.Props.C14
+import HW.Props.C15
+import HW.Props.C16
